@@ -81,6 +81,13 @@ func replayVisit(checker string) func(rc *runCtx, h *harness, v *interp.Violatio
 			sources, notes = realise(model, specView(), root, category, 40)
 			sources = append(sources, realiseComments(model)...)
 		}
+		ctxWrite := v.Kind == "write" && strings.Contains(v.Msg, "protected context.")
+		if ctxWrite {
+			// a write to the shared context: next to the realisations of the model, the
+			// checker is run on programs whose types go/types cannot size (the
+			// situations in which the size-related code takes its recovery paths)
+			sources = append(sources, hardToSizeProgram)
+		}
 		if len(sources) == 0 {
 			return false, "not realised: " + strings.Join(notes, "; ")
 		}
@@ -105,8 +112,11 @@ func replayVisit(checker string) func(rc *runCtx, h *harness, v *interp.Violatio
 					confirmed, detail = i, "native panic in the real checker: "+r.Detail
 				}
 			case "write":
-				if r.Status == "OK" && r.Mutated {
+				if r.Status == "OK" && r.Mutated && !ctxWrite {
 					confirmed, detail = i, "the real checker changed the syntax tree it was given"
+				}
+				if r.Status == "OK" && r.CtxChanged != "" && ctxWrite {
+					confirmed, detail = i, r.CtxChanged
 				}
 			case "assert":
 				if strings.HasPrefix(v.Msg, "pos:") && r.Status == "OK" && i < len(sources) {
@@ -665,3 +675,35 @@ func replayAPI(checker string) func(rc *runCtx, h *harness, v *interp.Violation,
 		return false, fmt.Sprintf("%d realisations: no diagnostic on a namesake (%v)", len(results), st)
 	}
 }
+
+// hardToSizeProgram: arrays of type parameters and struct types local to a
+// generic function, in parameter, range-value and range-expression position.
+const hardToSizeProgram = `package cand
+
+type gsxMatrix[T any] struct{ rows [][64]T }
+
+func gsxSum[T any](zero T, window [64]T, m gsxMatrix[T]) T {
+	for _, w := range window {
+		_ = w
+	}
+	for _, r := range m.rows {
+		_ = r
+	}
+	return zero
+}
+
+func gsxPairs[K comparable, V any](keys [32]K, vals [32]V) {
+	type pair struct {
+		k K
+		v V
+	}
+	var all [32]pair
+	for _, p := range all {
+		_ = p
+	}
+	for i, k := range keys {
+		_, _ = i, k
+	}
+	_ = vals
+}
+`
